@@ -177,6 +177,7 @@ Inductive prim : Type -> Type :=
 | PGetHint (key : string) : prim (option N)
 | PSetHint (key : string) (h : N) : prim unit
 | PGetGlobal (name : string) : prim (option dloc)
+| PAddGlobal (name : string) (d : dloc) : prim dloc                 (* add_global_no_throw: the existing global of that name, else d is entered and returned *)
 | PGetFuncs (name : string) : prim (option (list closure))
 | PSetFuncs (name : string) (l : list closure) : prim unit
 | POut (text : string) : prim unit
@@ -265,6 +266,10 @@ Definition run_prim {A} (p : prim A) : M A :=
   | PGetHint key => fun s => (RVal (assoc (s_hints s) key), s)
   | PSetHint key h => fun s => (RVal tt, set_hints s ((key, h) :: s_hints s))
   | PGetGlobal name => fun s => (RVal (assoc (s_globals s) name), s)
+  | PAddGlobal name d => fun s => match assoc (s_globals s) name with
+                                  | Some g => (RVal g, s)
+                                  | None => (RVal d, set_globals s (app (s_globals s) [(name, d)]))
+                                  end
   | PGetFuncs name => fun s => (RVal (assoc (s_funcs s) name), s)
   | PSetFuncs name l =>
       fun s => (RVal tt, set_funcs s (match assoc (s_funcs s) name with
@@ -358,7 +363,10 @@ Definition add_object (name : string) (d : dloc) : prog unit :=
 
 (* ---------------------------------------------------------------- builtin names the model knows *)
 Definition builtin_names : list string :=
-  ["print"; "puts"; "to_string"; "throw"; "size"; "empty"; "push_back"; "front"; "back"; "pop_back"; "clone"; "what"; "cb"; "eval"; "int"; "long"; "double"; "float"; "size_t"].
+  ["print"; "puts"; "to_string"; "throw"; "size"; "empty"; "push_back"; "front"; "back"; "pop_back"; "clone"; "what"; "cb"; "eval"; "int"; "long"; "double"; "float"; "size_t";
+   (* registered arithmetic constructors the model does not evaluate (a call is reported as unsupported, not as an unknown name) *)
+   "long_double"; "unsigned_int"; "unsigned_long"; "long_long"; "unsigned_long_long"; "char"; "wchar_t"; "char16_t"; "char32_t";
+   "int8_t"; "int16_t"; "int32_t"; "int64_t"; "uint8_t"; "uint16_t"; "uint32_t"; "uint64_t"].
 
 (* ---------------------------------------------------------------- Id lookup (Dispatch_Engine::get_object) *)
 Definition hint_key (n : ast) : string :=
